@@ -104,6 +104,7 @@ pub const WRAP_AT: (&str, &str) = ("rule \"r\" ", " { when X == 1 then Y = 1; }"
 pub const WRAP_RV: (&str, &str) = ("rule \"r\" { when X == ", " then Y = 1; }");
 pub const WRAP_RA: (&str, &str) = ("rule \"r\" { when X == 1 then Y = ", "; }");
 pub const WRAP_W: (&str, &str) = ("rule \"r\" { when ", " then Y = 1; }");
+pub const WRAP_FN: (&str, &str) = ("rule \"r\" { when X == 1 then ", "; }");
 pub const WRAP_WF: (&str, &str) = ("rule \"r\" { when X == 1 then SetWorkflowData(\"", "\"); }");
 pub const WRAP_WG: (&str, &str) = ("rule \"r\" { when X == 1 then set_workflow_data(\"", "\"); }");
 
@@ -307,6 +308,19 @@ fn run_entry(e: &str, s: &str) -> String {
                 Err(_) => "err".into(),
             }
         }
+        // parse_action_statement: ONE statement of the then part of a fixed rule; the function name goes through
+        // `function_name.to_lowercase()` and a keyword match (no prediction: oracle only)
+        "FN" => match GRLParser::parse_rules(&format!("{}{}{}", WRAP_FN.0, s, WRAP_FN.1)) {
+            Ok(rs) => match rs.first().map(|r| r.actions.as_slice()) {
+                Some([a]) if rs.len() == 1 => {
+                    let d = format!("{:?}", a);
+                    format!("ok {}", d.split(|c: char| !c.is_ascii_alphanumeric()).next().unwrap_or("?"))
+                }
+                Some(xs) => format!("ok other{}x{}", rs.len(), xs.len()),
+                None => "ok other0".into(),
+            },
+            Err(_) => "err".into(),
+        },
         // extract_module_from_context: <prefix> + one fixed rule through parse_with_modules
         "MC" => match GRLParser::parse_with_modules(&format!("{}{}", s, WRAP_MC)) {
             Ok(p) => {
@@ -337,6 +351,10 @@ const WHOLE: [&str; 4] = ["R", "M", "PU", "W"];
 
 /// a token of `xs`; one in ten is a Unicode white space character or a look-alike separator instead (every alphabet has them)
 fn pick_u<'a>(rng: &mut Rng, xs: &[&'a str]) -> &'a str {
+    if rng.chance(1, 14) {
+        // a character whose case mapping changes length (every token alphabet has them)
+        return pick_case(rng);
+    }
     if rng.chance(1, 10) {
         if rng.chance(2, 3) { *rng.pick(&UWS) } else { *rng.pick(&USEP) }
     } else {
@@ -382,6 +400,17 @@ const AT_TOK: [&str; 22] = [
 const WF_TOK: [&str; 34] = [
     "k", "=", "v", " ", "1", "true", "null", "A.b", "+", "[", "]", ",", "'", "é", "\u{a0}", "\u{1}0\u{2}", "\u{1}1\u{2}", "\u{1}2\u{2}", "\u{1}7\u{2}",
     "\u{1}", "\u{2}", "0", "99999999999999999999", ";", ")", "(", "}", "-5", "2.5", "x y", "stage", "\u{1}18446744073709551616\u{2}", "//", "日",
+];
+/// one statement of a then part: every keyword of parse_action_statement (the name is matched after `to_lowercase()`)
+const FN_BASE: [&str; 12] = [
+    "Log(\"msg 1\")", "SetWorkflowData(\"k=v\")", "set_workflow_data(\"k 1=v w\")", "CompleteWorkflow(\"wf\")", "complete_workflow('w')",
+    "ActivateAgendaGroup(\"g\")", "activate_agenda_group(\"g\")", "ScheduleRule(5000, \"n\")", "Retract($User)", "update($Car)",
+    "sendEmail(\"a@b\", 'Hi there', 3)", "$Car.setSpeed($Car.Speed + 1)",
+];
+const FN_TOK: [&str; 40] = [
+    "Log", "log", "LOG", "SetWorkflowData", "set_workflow_data", "SETWORKFLOWDATA", "CompleteWorkflow", "complete_workflow", "ActivateAgendaGroup",
+    "activate_agenda_group", "ScheduleRule", "schedule_rule", "Retract", "retract", "update", "f", "(", ")", "(\"k=v\")", "(\"a\")", "($X)", "(1, \"n\")",
+    "$", ".", "_", " ", "\"", "'", ",", "1", "Set", "Workflow", "Data", "Wor", "flow", "Sched", "le", "Act", "vate", "é",
 ];
 const STREAM_TOK: [&str; 30] = [
     "ev", ":", " ", "T", "from", "stream", "(", ")", "\"", "s", "over", "window", ",", "5", "min", "hours", "ms", "sliding", "tumbling",
@@ -440,6 +469,49 @@ const MB: [&str; 30] = [
     "é", "ß", "日", "本", "😀", "²", "٣", "\u{a0}", "\u{3000}", "\u{2028}", "ñ", "Ω", "\u{fffd}", "\u{85}", "\u{2003}", "\u{1680}", "\u{202f}",
     "\u{2029}", "\u{200b}", "\u{feff}", "（", "）", "＂", "＝", "＆", "｜", "！", "，", "\u{b}", "\u{c}",
 ];
+/// characters whose CASE MAPPING changes the UTF-8 length or the number of chars (std's `str::to_lowercase` / `to_uppercase` are not
+/// length preserving): byte offsets found in a case-folded copy do not fit the original text.
+/// to_lowercase changers: KELVIN SIGN (3 -> 1 byte, the only non-ASCII char whose lower case is ASCII), OHM SIGN, ANGSTROM SIGN, CAPITAL
+/// SHARP S (3 -> 2), A / T WITH STROKE (2 -> 3), I WITH DOT ABOVE (2 -> 3, two chars);
+/// to_uppercase changers: sharp s (-> "SS"), n preceded by apostrophe, j with caron, iota with dialytika and tonos (2 -> 6), the fi / ffi /
+/// st ligatures, dotless i and long s (2 -> 1, upper case is ASCII), small a / t with stroke (3 -> 2), h with line below, alpha with
+/// psili and ypogegrammeni (3 -> 5), Armenian ech-yiwn; title-case digraph; and the context-dependent final sigma (`ΑΣ` -> `ας`, `ΑΣΑ` -> `ασα`)
+const CASE_LOWER: [&str; 7] = ["\u{212A}", "\u{2126}", "\u{212B}", "\u{1E9E}", "\u{23A}", "\u{23E}", "\u{130}"];
+const CASE_UPPER: [&str; 15] = [
+    "\u{df}", "\u{149}", "\u{1f0}", "\u{390}", "\u{fb01}", "\u{fb03}", "\u{fb06}", "\u{131}", "\u{17f}", "\u{2c65}", "\u{2c66}", "\u{1e96}", "\u{1f80}",
+    "\u{587}", "\u{1c5}",
+];
+const CASE_CTX: [&str; 5] = ["\u{391}\u{3a3}", "\u{391}\u{3a3}\u{391}", "\u{3a3}", "\u{130}L\u{130}", "\u{212A}\u{23A}"];
+fn case_chars() -> Vec<&'static str> {
+    CASE_LOWER.iter().chain(CASE_UPPER.iter()).chain(CASE_CTX.iter()).copied().collect()
+}
+fn pick_case(rng: &mut Rng) -> &'static str {
+    match rng.below(5) {
+        0 | 1 => *rng.pick(&CASE_LOWER),
+        2 | 3 => *rng.pick(&CASE_UPPER),
+        _ => *rng.pick(&CASE_CTX),
+    }
+}
+/// a multi-byte character for splicing / soups: one in three is a length-changing case-mapping character
+fn pick_mb(rng: &mut Rng) -> &'static str {
+    if rng.chance(1, 3) { pick_case(rng) } else { *rng.pick(&MB) }
+}
+/// the assumption under which the model's ASCII-only `lowerAscii` is EXACT for `name.to_lowercase() == <ASCII keyword>`: the only
+/// non-ASCII scalar value whose `to_lowercase()` is pure ASCII is KELVIN SIGN U+212A (-> `k`); the aggregate function names
+/// (count sum avg min max first last) contain no `k`, so a name with a non-ASCII char never folds to one of them. Checked against
+/// std's tables on every run of `gen` (a std upgrade that breaks it makes the check BROKEN, not quietly wrong).
+fn assert_casefold_assumption() {
+    for cp in 0x80u32..=0x10FFFF {
+        if let Some(c) = char::from_u32(cp) {
+            if c != '\u{212A}' && c.to_lowercase().all(|l| l.is_ascii()) {
+                panic!("casefold assumption violated: U+{:04X} lower-cases to ASCII", cp);
+            }
+        }
+    }
+    for w in ["count", "sum", "avg", "min", "max", "first", "last"] {
+        assert!(!w.contains('k'));
+    }
+}
 /// white space other than blank / tab / line break: multi-byte Unicode White_Space (char::is_whitespace: NBSP, NEL, EM SPACE,
 /// IDEOGRAPHIC SPACE, LINE/PARAGRAPH SEPARATOR, OGHAM SPACE MARK, THIN SPACE, NARROW NBSP, MEDIUM MATHEMATICAL SPACE) and the ASCII VT / FF
 /// (white space for `trim`, not for the regex engine's `\s` nor for nom's multispace)
@@ -514,7 +586,7 @@ fn soup(rng: &mut Rng, toks: &[&str], max: u64) -> String {
     let mut s = String::new();
     for _ in 0..n {
         if rng.chance(1, 9) {
-            s.push_str(*rng.pick(&MB));
+            s.push_str(pick_mb(rng));
         } else {
             s.push_str(*rng.pick(toks));
         }
@@ -543,7 +615,7 @@ fn mutate(rng: &mut Rng, base: &str, toks: &[&str]) -> String {
             0 => s.truncate(a),
             1 => s = format!("{}{}", &s[..a], &s[b..]),
             2 => s = format!("{}{}{}", &s[..b], &s[a..b], &s[b..]),
-            3 => s.insert_str(a, *rng.pick(&MB)),
+            3 => s.insert_str(a, pick_mb(rng)),
             4 => s.insert_str(a, *rng.pick(toks)),
             _ => {
                 let other = *rng.pick(&VALID_RULES);
@@ -572,7 +644,16 @@ fn raw_lossy(rng: &mut Rng) -> String {
             _ => rng.range(0x20, 0x7e) as u8,
         })
         .collect();
-    String::from_utf8_lossy(&bytes).into_owned()
+    let mut s = String::from_utf8_lossy(&bytes).into_owned();
+    // random bytes never form one of the ~30 code points whose case mapping changes length: one raw string in five gets 1..3 of them
+    if rng.chance(1, 5) {
+        for _ in 0..rng.range(1, 3) {
+            let pos = char_positions(&s);
+            let a = *rng.pick(&pos);
+            s.insert_str(a, pick_case(rng));
+        }
+    }
+    s
 }
 
 fn chain(rng: &mut Rng) -> String {
@@ -612,6 +693,9 @@ fn wrap_rule(body: &str) -> String {
 /// are capped at `WHEN_LEAF_CAP` bytes in this stream (separators: `&&  ||  then  }  ;`).
 pub const WHEN_LEAF_CAP: usize = 40;
 fn cap_when_leaves(s: &str) -> String {
+    cap_when_leaves_n(s, WHEN_LEAF_CAP)
+}
+fn cap_when_leaves_n(s: &str, cap: usize) -> String {
     let Some(w) = s.find("when") else { return s.to_string() };
     let (head, tail) = s.split_at(w + 4);
     let mut out = String::from(head);
@@ -633,7 +717,7 @@ fn cap_when_leaves(s: &str) -> String {
             }
             continue;
         }
-        if run + c.len_utf8() <= WHEN_LEAF_CAP {
+        if run + c.len_utf8() <= cap {
             out.push(c);
             run += c.len_utf8();
             if c == '(' {
@@ -710,7 +794,7 @@ fn value_payload(rng: &mut Rng) -> String {
     let mut s = String::new();
     for _ in 0..n {
         if rng.chance(1, 6) {
-            s.push_str(*rng.pick(&MB));
+            s.push_str(pick_mb(rng));
         } else {
             s.push_str(*rng.pick(&T));
         }
@@ -771,6 +855,124 @@ fn literal_slots(s: &str) -> Vec<(usize, usize)> {
         i += 1;
     }
     v
+}
+/// byte ranges of the identifiers / keywords / function names / variable names: maximal runs of ASCII letters, digits and `_` that
+/// start with a letter or `_` (inside string literals as well)
+fn ident_slots(s: &str) -> Vec<(usize, usize)> {
+    let b = s.as_bytes();
+    let mut v = Vec::new();
+    let mut i = 0;
+    while i < b.len() {
+        if b[i].is_ascii_alphabetic() || b[i] == b'_' {
+            let a = i;
+            // hyphenated keywords (`max-depth`, `no-loop`, `lock-on-active`) are one name
+            while i < b.len() && (b[i].is_ascii_alphanumeric() || b[i] == b'_' || (b[i] == b'-' && i + 1 < b.len() && b[i + 1].is_ascii_alphabetic())) {
+                i += 1;
+            }
+            v.push((a, i));
+        } else if b[i].is_ascii_digit() {
+            while i < b.len() && (b[i].is_ascii_alphanumeric() || b[i] == b'_') {
+                i += 1;
+            }
+        } else {
+            i += 1;
+        }
+    }
+    v
+}
+/// ASCII letters and the characters that CASE-MAP to them (a folded copy of the text then contains the keyword although the original does
+/// not, and has a different byte length): k <- KELVIN SIGN, i <- I WITH DOT ABOVE / dotless i, s <- long s, ss <- sharp s, st / fi <- ligatures,
+/// a <- ANGSTROM SIGN / A WITH STROKE, t <- T WITH STROKE, o <- OHM SIGN (looks), n <- n preceded by apostrophe, j <- j with caron, h <- h with line below
+const FOLD_TO: [(&str, &str); 19] = [
+    ("k", "\u{212A}"), ("K", "\u{212A}"), ("i", "\u{130}"), ("I", "\u{130}"), ("i", "\u{131}"), ("s", "\u{17f}"), ("S", "\u{17f}"), ("ss", "\u{df}"),
+    ("st", "\u{fb06}"), ("fi", "\u{fb01}"), ("a", "\u{23A}"), ("A", "\u{212B}"), ("t", "\u{23E}"), ("T", "\u{23E}"), ("o", "\u{2126}"), ("O", "\u{2126}"),
+    ("n", "\u{149}"), ("j", "\u{1f0}"), ("h", "\u{1e96}"),
+];
+/// the identifier `slot` of `s` with a case-mapping character put in front of it (0), in its middle (1), behind it (2), or with its
+/// first letter that has a case-mapping relative replaced by that relative (3; falls back to 1)
+fn ident_case(s: &str, slot: (usize, usize), c: &str, mode: usize, k: usize) -> String {
+    let id = &s[slot.0..slot.1];
+    match mode {
+        0 => ins(s, slot.0, c),
+        2 => ins(s, slot.1, c),
+        3 => {
+            for j in 0..FOLD_TO.len() {
+                let (from, to) = FOLD_TO[(j + k) % FOLD_TO.len()];
+                if id.contains(from) {
+                    return subst(s, slot, &id.replacen(from, to, 1));
+                }
+            }
+            ins(s, slot.0 + id.len() / 2, c)
+        }
+        _ => ins(s, slot.0 + id.len() / 2, c),
+    }
+}
+/// length-changing characters by the byte shift they cause in a folded copy — to_lowercase: KELVIN SIGN -2, I WITH DOT ABOVE +1, OHM SIGN -1,
+/// I-dot twice +2; to_uppercase: n-apostrophe +1, dotless i -1, iota-dialytika-tonos +4, fi ligature -1
+const SHIFT_LOWER: [&str; 4] = ["\u{212A}", "\u{130}", "\u{2126}", "\u{130}\u{130}"];
+const SHIFT_UPPER: [&str; 4] = ["\u{149}", "\u{131}", "\u{390}", "\u{fb01}"];
+/// end of the delimiter behind byte `t` of `s`: blanks are skipped, then the run of ASCII punctuation (`(`, `==`, `:`, `+=`, …) — `None`
+/// when an identifier, a quote or the end of the text comes first
+fn delim_after(s: &str, t: usize) -> Option<(usize, usize)> {
+    let b = s.as_bytes();
+    let mut d = t;
+    while d < b.len() && matches!(b[d], b' ' | b'\t' | b'\n' | b'\r') {
+        d += 1;
+    }
+    let mut e = d;
+    while e < b.len() && b[e].is_ascii_punctuation() && !matches!(b[e], b'"' | b'\'' | b'_' | b'$' | b'?') && e - d < 2 {
+        e += 1;
+    }
+    if e > d { Some((d, e)) } else { None }
+}
+/// SANDWICH: a shifted offset only panics when it lands inside a multi-byte character or beyond the end, so the length-changing
+/// character `x` goes in front of identifier `i` and a 3-byte character is put right next to a delimiter behind it:
+/// mode 0 — directly in front of AND directly behind the delimiter that follows identifier `i` (`Kmax日(日?v)`: offsets of a single-char
+/// delimiter, shifted either way); mode 1 — directly in front of identifier `i + 1` and directly behind ITS delimiter (`K.. 日goal:日 X`,
+/// `KNOT 日WHERE 日`: offsets of keyword + delimiter tokens, which must stay intact)
+fn sandwich(s: &str, slots: &[(usize, usize)], i: usize, x: &str, mode: usize) -> String {
+    const F: &str = "\u{65e5}";
+    let j = if mode == 0 { i } else { (i + 1).min(slots.len() - 1) };
+    let mut out = s.to_string();
+    // edits from right to left (offsets of `s` stay valid)
+    match delim_after(s, slots[j].1) {
+        Some((d, e)) => {
+            out.insert_str(e, F);
+            if mode == 0 {
+                out.insert_str(d, F);
+            }
+        }
+        None => out.insert_str(slots[j].1, F),
+    }
+    if mode != 0 && j != i {
+        out.insert_str(slots[j].0, F);
+    }
+    out.insert_str(slots[i].0, x);
+    out
+}
+/// one (or, one time in four, every) identifier / keyword / function name / variable name gets a length-changing case-mapping character
+fn case_swap(rng: &mut Rng, s: &str) -> String {
+    let slots = ident_slots(s);
+    if slots.is_empty() {
+        let pos = char_positions(s);
+        return ins(s, *rng.pick(&pos), pick_case(rng));
+    }
+    if rng.chance(1, 4) {
+        let mut out = s.to_string();
+        for sl in slots.iter().rev() {
+            if rng.chance(1, 2) {
+                out = ident_case(&out, *sl, pick_case(rng), rng.below(4) as usize, rng.below(19) as usize);
+            }
+        }
+        out
+    } else if rng.chance(1, 2) {
+        let i = rng.below(slots.len() as u64) as usize;
+        let x = if rng.chance(3, 4) { *rng.pick(&SHIFT_LOWER) } else { *rng.pick(&SHIFT_UPPER) };
+        sandwich(s, &slots, i, x, rng.below(2) as usize)
+    } else {
+        let sl = *rng.pick(&slots);
+        ident_case(s, sl, pick_case(rng), rng.below(4) as usize, rng.below(19) as usize)
+    }
 }
 fn subst(s: &str, slot: (usize, usize), rep: &str) -> String {
     format!("{}{}{}", &s[..slot.0], rep, &s[slot.1..])
@@ -858,12 +1060,17 @@ fn lit_swap(rng: &mut Rng, s: &str) -> String {
         lit_ph(s, sl, *rng.pick(&PH), rng.below(5) as usize)
     }
 }
-/// one of the three structured mutations (`max_num`: longest digit run)
+/// one of the four structured mutations (`max_num`: longest digit run)
 fn swap_any(rng: &mut Rng, s: &str, max_num: usize) -> String {
-    match rng.below(5) {
+    match rng.below(7) {
         0 | 1 => blank_swap(rng, s),
         2 => num_swap(rng, s, max_num),
         3 => lit_swap(rng, s),
+        5 => case_swap(rng, s),
+        6 => {
+            let t = case_swap(rng, s);
+            if rng.chance(1, 2) { blank_swap(rng, &t) } else { case_swap(rng, &t) }
+        }
         _ => {
             let t = blank_swap(rng, s);
             if rng.chance(1, 2) { num_swap(rng, &t, max_num) } else { lit_swap(rng, &t) }
@@ -918,10 +1125,11 @@ fn bases_for(e: &str) -> Vec<String> {
             "salience -10 agenda-group \"g 1\" no-loop true",
             "date-effective \"2025-01-01\" lock-on-active activation-group 'a 2'",
         ]),
-        "RV" | "RA" => v(&["\"a b\"", "[1, 2.5, \"x y\", 'z w']", "A.b + 1", "true", " 42 ", "-7.25", "x_1", "\"Hello, \" + U.n + \"!\"", "'k=v 1'"]),
+        "RV" | "RA" => v(&["\"a b\"", "[1, 2.5, \"x y\", 'z w']", "A.b + 1", "true", " 42 ", "-7.25", "x_1", "\"Hello, \" + U.n + \"!\"", "'k=v 1'", "TRUE", "False", "NULL"]),
         "WF" | "WG" => v(&[
             "stage=done", "k 1=v w", "key = 42", "a=true", "k=[1, \u{1}7\u{2}, x y]", "n=A.b + 1", "no equals", "=x", "k=", "é=日本 語", "k='q r'", "a=b=c 2",
         ]),
+        "FN" => v(&FN_BASE),
         "W" => v(&[
             "User.Age >= 18 && User.Country == \"US\"",
             "(A.x > 1 || B.y == \"s t\") && !(C.z < 2.5)",
@@ -936,14 +1144,16 @@ fn bases_for(e: &str) -> Vec<String> {
 /// longest digit run a structured mutation may write: text that ends up in a `when` leaf stays short (F-C05h)
 fn max_num_for(e: &str) -> usize {
     match e {
-        "R" | "M" | "W" | "PU" | "AC" | "RV" | "AT" | "PN" | "MC" | "WF" | "WG" => 39,
+        "R" | "M" | "W" | "PU" | "AC" | "RV" | "AT" | "PN" | "MC" | "WF" | "WG" | "FN" => 39,
         _ => 400,
     }
 }
-const FAMILY_ENTRIES: [&str; 30] = [
+const FAMILY_ENTRIES: [&str; 31] = [
     "X", "Q", "QV", "V", "D", "DC", "G", "GQ", "A", "NH", "NP", "RV", "RA", "S", "SJ", "SC", "SD", "SW", "SS", "ST", "PU", "PN", "AC", "MC", "AT",
-    "WF", "WG", "R", "M", "W",
+    "WF", "WG", "FN", "R", "M", "W",
 ];
+/// entries whose payload is wrapped in a fixed rule (a whole-rule parse per case: about a millisecond)
+const WRAPPED: [&str; 10] = ["RV", "RA", "PN", "AC", "MC", "AT", "WF", "WG", "FN", "W"];
 /// the systematic part: every blank of every valid input replaced by a multi-byte white space character (small entries: each of the
 /// four NBSP / NEL / EM SPACE / IDEOGRAPHIC SPACE; whole rules: one, rotating through all twelve), every blank at once, look-alike
 /// separators; every digit run replaced by every boundary number; every placeholder form inside every string literal
@@ -1013,6 +1223,80 @@ fn family(out_all: &mut Vec<String>) {
                     }
                 }
             }
+            // (iv) characters whose case mapping changes the UTF-8 length (to_lowercase / to_uppercase / final sigma): in front of,
+            // behind and inside the input (kernel entries: every character at two rotating interior positions; entries that parse a
+            // whole rule per case: a rotating third of the characters at one interior position)
+            {
+                let cc = case_chars();
+                let cp = char_positions(&b);
+                let slow = big || WRAPPED.contains(&e);
+                for (ci, c) in cc.iter().enumerate() {
+                    rot += 1;
+                    if slow && ci % 3 != bi % 3 {
+                        continue;
+                    }
+                    let mut at = vec![cp[(rot * 7) % cp.len()]];
+                    if !slow {
+                        at.push(cp[(rot * 13 + 5) % cp.len()]);
+                    }
+                    if !big {
+                        at.push(0);
+                        at.push(b.len());
+                    }
+                    at.sort();
+                    at.dedup();
+                    for a in at {
+                        out.push(mk_case(e, &format!("{}{}{}", &b[..a], c, &b[a..])));
+                    }
+                }
+                // … and at EVERY identifier / keyword / function name / variable name of the input (in front of the delimiter the parser
+                // searches for next): kernel entries get a to_lowercase changer and a to_uppercase / context changer in front of, inside
+                // and behind each name plus the name with a letter replaced by its case-mapping relative; entries that parse a whole
+                // rule per case get one rotating character at one rotating position per name. Text that reaches the GRL parser keeps its
+                // `when` leaves under 100 bytes (F-C05h).
+                let grl = slow || WHOLE.contains(&e);
+                let lo_hi: Vec<&str> = CASE_UPPER.iter().chain(CASE_CTX.iter()).copied().collect();
+                let slots = ident_slots(&b);
+                for (si, sl) in slots.iter().copied().enumerate() {
+                    rot += 1;
+                    let mut v: Vec<String> = Vec::new();
+                    // sandwiches: the character in front of this name, a 3-byte character next to the delimiter behind it / behind the next name
+                    if slow {
+                        v.push(sandwich(&b, &slots, si, SHIFT_LOWER[rot % 4], 0));
+                        v.push(sandwich(&b, &slots, si, SHIFT_LOWER[(rot + 1) % 4], 1));
+                        if rot % 2 == 0 {
+                            v.push(sandwich(&b, &slots, si, SHIFT_UPPER[(rot / 2) % 4], (rot / 8) % 2));
+                        }
+                    } else {
+                        for mode in 0..2 {
+                            for x in SHIFT_LOWER {
+                                v.push(sandwich(&b, &slots, si, x, mode));
+                            }
+                            v.push(sandwich(&b, &slots, si, SHIFT_UPPER[(rot + mode) % 4], mode));
+                            v.push(sandwich(&b, &slots, si, SHIFT_UPPER[(rot + mode + 2) % 4], mode));
+                        }
+                    }
+                    if slow {
+                        v.push(ident_case(&b, sl, cc[rot % cc.len()], rot % 4, rot));
+                    } else {
+                        for mode in 0..3 {
+                            v.push(ident_case(&b, sl, CASE_LOWER[(rot + mode) % CASE_LOWER.len()], mode, rot));
+                            v.push(ident_case(&b, sl, lo_hi[(rot * 3 + mode) % lo_hi.len()], mode, rot));
+                        }
+                        v.push(ident_case(&b, sl, cc[rot % cc.len()], 3, rot));
+                    }
+                    for t in v {
+                        let t = if !grl {
+                            t
+                        } else if e == "W" {
+                            cap_when_leaves_n(&format!("when {}", t), 100)[5..].to_string()
+                        } else {
+                            cap_when_leaves_n(&t, 100)
+                        };
+                        out.push(mk_case(e, &t));
+                    }
+                }
+            }
             // whole rules are expensive to parse: parse_rules sees every case, parse_with_modules and parse_rule a third each
             if big && e != "R" {
                 let k = if e == "M" { bi % 3 } else { (bi + 1) % 3 };
@@ -1023,6 +1307,146 @@ fn family(out_all: &mut Vec<String>) {
         }
     }
     out_all.extend(all);
+}
+
+/// `s` with the piece `c` inserted at byte offset `a` (a char boundary)
+fn ins(s: &str, a: usize, c: &str) -> String {
+    format!("{}{}{}", &s[..a], c, &s[a..])
+}
+
+/// aggregate queries `f(?v) WHERE p(?s, ?v) [AND ?v > 10]` (parse_aggregate_query / parse_function_call: the function name is
+/// case-folded, '(' / ')' are located by byte offset) with a length-changing case-mapping character at every structural position:
+/// in front of / inside / behind the function name, between name and '(', right after '(', after the '?', inside and at the end of
+/// the variable, before and after ')', before ` WHERE `, in the pattern, in the filter — once, twice (same position) and at two
+/// positions at once; plus every string of length <= 4 over {K-sign, I-dot, A-stroke, sharp s, (, ), ?, x, blank} as the call part
+fn agg_family(out: &mut Vec<String>) {
+    let cc = case_chars();
+    let funcs = ["count", "sum", "AVG", "min", "Max", "first", "LAST", "total"];
+    for (fi, f) in funcs.iter().enumerate() {
+        let var = "?temp_v";
+        // pieces: name | '(' | var | ')' | tail
+        let call = format!("{}({})", f, var);
+        let tails = [" WHERE reading(?s, ?temp_v)", " WHERE salary(?n, ?temp_v) AND ?temp_v > 10"];
+        let tail = tails[fi % 2];
+        let base = format!("{}{}", call, tail);
+        let o = f.len(); // '('
+        let c_ = call.len() - 1; // ')'
+        // structural byte positions in `base`
+        let pos: Vec<usize> = vec![
+            0,                      // in front of the name
+            1,                      // inside the name
+            o,                      // between name and '('
+            o + 1,                  // right after '(' (before '?')
+            o + 2,                  // after '?'
+            o + 2 + 4,              // inside the variable
+            c_,                     // end of the variable / before ')'
+            c_ + 1,                 // after ')' (before " WHERE ")
+            call.len() + 7,         // first char of the pattern
+            base.find("(?").map(|x| x + 1).unwrap_or(0).max(call.len() + 8), // inside the pattern's argument list
+            base.len(),             // at the very end (pattern or filter)
+            base.find(" AND ").map(|x| x + 5).unwrap_or(base.len() - 1), // in the filter / before the last char
+        ];
+        for c in &cc {
+            for (pi, a) in pos.iter().enumerate() {
+                out.push(mk_case("A", &ins(&base, *a, c)));
+                // the same character twice (two shifts add up: I-dot twice moves an offset by 2)
+                out.push(mk_case("A", &ins(&base, *a, &format!("{}{}", c, c))));
+                // … and together with one at a later structural position
+                let b = pos[(pi + 3) % pos.len()];
+                if b > *a {
+                    out.push(mk_case("A", &ins(&ins(&base, b, c), *a, c)));
+                }
+            }
+            // the variable IS the character; the name IS the character; blank-padded
+            out.push(mk_case("A", &format!("{}(?{}){}", f, c, tail)));
+            out.push(mk_case("A", &format!("{}({}){}", c, var, tail)));
+            out.push(mk_case("A", &format!(" {} ( {} ) {}", f, c, tail)));
+            out.push(mk_case("A", &format!("{}(){}{}", f, c, tail)));
+        }
+    }
+    // exhaustive short call parts in front of a fixed WHERE part
+    let alpha = ["\u{212A}", "\u{130}", "\u{23A}", "\u{df}", "(", ")", "?", "x", " "];
+    let mut frontier: Vec<String> = vec![String::new()];
+    for _ in 0..4 {
+        let mut next = Vec::new();
+        for s in &frontier {
+            for a in alpha {
+                next.push(format!("{}{}", s, a));
+            }
+        }
+        for s in &next {
+            out.push(mk_case("A", &format!("{} WHERE p(?x)", s)));
+        }
+        frontier = next;
+    }
+}
+
+/// one then-part statement (entry FN): a case-mapping character in front of / inside / behind the function name and inside the
+/// argument, and the letters k / i / s / ss / fi / st of the keywords replaced by characters that case-map to them
+/// (`SetWor<KELVIN SIGN>flowData` lower-cases to the keyword `setworkflowdata`)
+fn fn_family(out: &mut Vec<String>) {
+    let cc = case_chars();
+    let mut rot = 0usize;
+    for (bi, b) in FN_BASE.iter().enumerate() {
+        let o = b.find('(').unwrap_or(0);
+        for (ci, c) in cc.iter().enumerate() {
+            if ci % 3 != bi % 3 {
+                continue;
+            }
+            rot += 1;
+            for a in [0, 1 + rot % o.max(1), o, o + 1] {
+                if b.is_char_boundary(a) {
+                    out.push(mk_case("FN", &ins(b, a, c)));
+                }
+            }
+        }
+        for (from, to) in [
+            ("k", "\u{212A}"), ("K", "\u{212A}"), ("i", "\u{130}"), ("i", "\u{131}"), ("I", "\u{130}"), ("s", "\u{17f}"), ("S", "\u{17f}"),
+            ("ss", "\u{df}"), ("st", "\u{fb06}"), ("fi", "\u{fb01}"), ("a", "\u{23A}"), ("t", "\u{23E}"), ("A", "\u{212B}"),
+        ] {
+            if b[..o].contains(from) {
+                out.push(mk_case("FN", &format!("{}{}", b[..o].replacen(from, to, 1), &b[o..])));
+                out.push(mk_case("FN", &format!("{}{}", b[..o].replace(from, to), &b[o..])));
+            }
+        }
+    }
+}
+
+/// the arithmetic evaluator (evaluate_expression / find_operator): every string of length 1..4 over
+/// {1, e, E, +, -, ., x, blank, (, ), *} — every look-behind / look-ahead around a sign, a dot, an exponent letter or a parenthesis at
+/// the very start or end of the text — and every string of length 5 over {1, e, +, -, x}
+fn arith_short(out: &mut Vec<String>) {
+    for (alpha, len) in [(&["1", "e", "E", "+", "-", ".", "x", " ", "(", ")", "*"][..], 4usize), (&["1", "e", "+", "-", "x"][..], 5usize)] {
+        let mut frontier: Vec<String> = vec![String::new()];
+        for l in 1..=len {
+            let mut next = Vec::new();
+            for s in &frontier {
+                for a in alpha {
+                    next.push(format!("{}{}", s, a));
+                }
+            }
+            if !(len == 5 && l < 5) {
+                for s in &next {
+                    out.push(mk_case("V", s));
+                }
+            }
+            frontier = next;
+        }
+    }
+}
+/// a random longer string over the same alphabet (plus 0, 9, /, %, a fact name, a quote)
+fn arith_long(rng: &mut Rng) -> String {
+    const T: [&str; 22] = ["1", "0", "9", "e", "E", "+", "-", ".", "x", " ", "(", ")", "*", "/", "%", "I", "e-", "E+", "1e", "2.5", "\"", "F"];
+    let n = rng.range(5, 14);
+    let mut s = String::new();
+    for _ in 0..n {
+        if rng.chance(1, 16) {
+            s.push_str(pick_case(rng));
+        } else {
+            s.push_str(*rng.pick(&T));
+        }
+    }
+    s
 }
 
 fn gen(rng: &mut Rng, n: usize, _tier: &str) -> Vec<String> {
@@ -1067,9 +1491,16 @@ fn gen(rng: &mut Rng, n: usize, _tier: &str) -> Vec<String> {
             frontier = next;
         }
     }
-    // structured mutations of every valid input of every entry: white space, numbers, literal bodies
+    // structured mutations of every valid input of every entry: white space, numbers, literal bodies, case-mapping characters
+    assert_casefold_assumption();
     family(&mut out);
-    let entries: Vec<&str> = MODELLED.iter().chain(["R", "M", "W"].iter()).copied().collect();
+    agg_family(&mut out);
+    fn_family(&mut out);
+    arith_short(&mut out);
+    for _ in 0..(n / 8).min(4000) {
+        out.push(mk_case("V", &arith_long(rng)));
+    }
+    let entries: Vec<&str> = MODELLED.iter().chain(["R", "M", "W", "FN"].iter()).copied().collect();
     for _ in 0..n {
         let e = *rng.pick(&entries);
         let bases = bases_for(e);
@@ -1077,20 +1508,22 @@ fn gen(rng: &mut Rng, n: usize, _tier: &str) -> Vec<String> {
             // a valid input with blanks / numbers / literal bodies swapped, sometimes spliced as well
             let b = rng.pick(&bases).clone();
             let mut s = swap_any(rng, &b, max_num_for(e));
-            if rng.chance(1, 4) && !matches!(e, "RV" | "RA" | "WF" | "WG") {
+            if rng.chance(1, 4) && !matches!(e, "RV" | "RA" | "WF" | "WG" | "FN") {
                 s = mutate(rng, &s, if WHOLE.contains(&e) { &GRL_TOK } else { &EXPR_TOK });
             }
             // text that reaches the GRL parser: `when` leaves stay short (F-C05h is probed separately)
             if e == "W" {
                 s = cap_when_leaves(&format!("when {}", s))[5..].to_string();
-            } else if matches!(e, "R" | "M" | "PU" | "AT" | "PN" | "AC" | "MC" | "RV" | "RA" | "WF" | "WG") {
+            } else if matches!(e, "R" | "M" | "PU" | "AT" | "PN" | "AC" | "MC" | "RV" | "RA" | "WF" | "WG" | "FN") {
                 s = cap_when_leaves(&s);
             }
             out.push(mk_case(e, &s));
             continue;
         }
         let s = match e {
+            "V" if rng.chance(1, 4) => arith_long(rng),
             "V" if rng.chance(1, 2) => arith(rng),
+            "FN" => pick_soup(rng, &FN_TOK, 6, false).replace('\n', " "),
             "X" | "Q" | "QV" | "V" => match rng.below(6) {
                 0 => chain(rng),
                 1 => mutate(rng, "User.IsVIP == true && (Order.Amount > 1000 || !(X != \"a\\\"b\"))", &EXPR_TOK),
@@ -1126,7 +1559,10 @@ fn gen(rng: &mut Rng, n: usize, _tier: &str) -> Vec<String> {
                 _ => {
                     let mut s = String::new();
                     for _ in 0..rng.range(0, 9) {
-                        s.push_str(pick_u(rng, &[" WHERE ", " AND ", "count", "SUM", "avg", "min", "Max", "first", "last", "(", ")", "?", "x", " ", "é", "日", "p(?x)", "K"]));
+                        s.push_str(pick_u(rng, &[
+                            " WHERE ", " AND ", "count", "SUM", "avg", "min", "Max", "first", "last", "(", ")", "?", "x", " ", "é", "日", "p(?x)", "K",
+                            "\u{212A}", "\u{130}", "\u{23A}", "\u{1E9E}", "(?x)", "(?\u{2126})",
+                        ]));
                     }
                     s
                 }
@@ -1462,6 +1898,68 @@ fn main() {
                 }
             }
             println!("{}", mk_case("R", "rule \"r\" { when X == \"\u{1}7\u{2}\" then Log(\"\u{1}7\u{2}\"); $C.m(\"\u{1}8\u{2}\"); f(\"a=\u{1}9\u{2}\", '\u{1}5\u{2}'); Y = \"\u{1}6\u{2}\"; }"));
+        }
+        Some("corpus3") => {
+            // the lines of corpus/C05/casefold.case
+            println!("# C05 corpus: characters whose case mapping changes the UTF-8 length (str::to_lowercase / to_uppercase are not length");
+            println!("# preserving), placed in front of the delimiters the parsers search for (printed by `c05 corpus3`); every line yields");
+            println!("# ok/err on the unchanged tree. Offsets found in a case-folded copy must never be applied to the original text.");
+            println!("# parse_aggregate_query: the function name is matched after to_lowercase(); '(' / ')' located by byte offset");
+            for q in [
+                "max(?temp_\u{212A}) WHERE reading(?sensor, ?temp_\u{212A})",
+                "sum(?R_\u{2126}) WHERE resistor(?id, ?R_\u{2126})",
+                "min(?d_\u{212B}) WHERE bond(?a, ?b, ?d_\u{212B})",
+                "count(?\u{130}L\u{130}) WHERE city(?\u{130}L\u{130})",
+                "GR\u{1E9E}E(?x) WHERE p(?x)",
+                "(\u{212A}) WHERE )",
+                "\u{212A}() WHERE )",
+                "\u{130}(\u{130}) WHERE )",
+                "\u{130}\u{130}() WHERE )",
+                "AVG(\u{23A}) WHERE a",
+                "m\u{130}n(?x) WHERE p(?x)",
+                "\u{fb01}rst(?x) WHERE p(?x) AND ?x > \u{df}",
+                "la\u{17f}t(\u{391}\u{3a3}) WHERE p(\u{391}\u{3a3}\u{391})",
+            ] {
+                println!("{}", mk_case("A", q));
+            }
+            println!("# parse_action_statement: the function name is matched after to_lowercase() (KELVIN SIGN lower-cases to k)");
+            for f in [
+                "SetWor\u{212A}flowData(\"k=v\")", "set_wor\u{212A}flow_data(\"k 1=v w\")", "Log\u{130}(\"a\")", "\u{212A}Log(\"a\")",
+                "CompleteWor\u{212A}flow(\"wf\")", "Act\u{130}vateAgendaGroup(\"g\")", "Retract\u{23A}($User)", "ScheduleRule\u{df}(5000, \"n\")",
+                "$Car.set\u{17f}peed($Car.Speed + 1)",
+            ] {
+                println!("{}", mk_case("FN", f));
+            }
+            println!("# parse_value: eq_ignore_ascii_case(true / false / null)");
+            for v in ["FAL\u{17f}E", "TRUE\u{130}", "\u{212A}null", "nu\u{17f}l", "tr\u{fb06}ue", "N\u{dc}LL\u{df}"] {
+                println!("{}", mk_case("RV", v));
+                println!("{}", mk_case("RA", v));
+            }
+            println!("# the other entry points: keywords / names with such a character in front of the next delimiter");
+            println!("{}", mk_case("G", "query \"Q\u{212A}\" {\n goal\u{130}: X == 1\n max-depth\u{212A}: 5\n max-solut\u{130}ons: 3\n}"));
+            println!("{}", mk_case("GQ", "query \"\u{130}\" {\n goal: \u{212A}(?x)\n}\nquery\u{212A} \"Q2\" { goal: Y == 2\n}"));
+            println!("{}", mk_case("Q", "NOT\u{130} X == 1"));
+            println!("{}", mk_case("Q", "N\u{2126}T User.\u{130}sBanned == true"));
+            println!("{}", mk_case("QV", "NOT U\u{17f}er.IsBanned\u{212A} == true"));
+            println!("{}", mk_case("X", "User.\u{130}sVIP == tru\u{212A}e && (\u{df} > 1 || !(X\u{fb01} != \"a\u{130}\"))"));
+            println!("{}", mk_case("D", "(manager\u{212A}(?p) \u{2126}R senior(?p) OR \u{130})"));
+            println!("{}", mk_case("NP", "gp(?x) W\u{212A}HERE parent(?x, ?y) AND (parent\u{130}(?y) WHERE child(?z))"));
+            println!("{}", mk_case("NH", "a(?x) WHERE (b\u{212A}(?y) WHERE\u{130} c(?z))"));
+            println!("{}", mk_case("S", "ev\u{212A}: T\u{130} from \u{17f}tream(\"s\u{212B}\") over w\u{130}ndow(5 m\u{130}n, sl\u{130}ding)"));
+            println!("{}", mk_case("SD", "5 m\u{130}n"));
+            println!("{}", mk_case("ST", "\u{17f}liding"));
+            println!("{}", mk_case("SC", "cl\u{130}ck.user_id == purcha\u{17f}e.user_\u{212A}"));
+            println!("{}", mk_case("V", "\u{212A} + 1 - \u{130}\u{130} * \"\u{df}\""));
+            println!("{}", mk_case("AT", "no-loop\u{212A} loc\u{212A}-on-active sal\u{130}ence 5"));
+            println!("{}", mk_case("AC", "Order\u{212A}($amount\u{130}: amount, \u{17f}tatus == \"completed\"), \u{17f}um($amount)"));
+            println!("{}", mk_case("MC", ";; M\u{2126}DULE: SENSORS\u{212A} - x\n"));
+            println!("{}", mk_case("MC", ";; MODULE: \u{130}\u{212A}\n"));
+            println!("{}", mk_case("R", "rule \"\u{212A}\" sal\u{130}ence 5 { w\u{212A}hen X\u{130}.s == \"a\u{212B}\" then SetWor\u{212A}flowData(\"\u{130}=\u{212A}\"); Y\u{23A} = 1; }"));
+            println!("{}", mk_case("M", "defmodule S\u{212A} {\n export\u{130}: all\n}\n;; MODULE: S\u{212A} - x\nrule\u{212A} \"T\" {\n when t.v > 28\n then println\u{130}(\"Hot\");\n}"));
+            println!("# evaluate_expression / find_operator: a sign right behind a leading exponent letter (look-behind two bytes)");
+            for v in ["e+1", "E-1", "e-1", " e+1", "1e+1", "1e-0", "e+", "-e-1", "(e+1)", "xe-1"] {
+                println!("{}", mk_case("V", v));
+            }
         }
         Some("one") => {
             // c05 one <E> <hex>  — debugging aid
